@@ -28,3 +28,27 @@ Print Assumptions C04_loop_reserved.
 Theorem C04_assignment_binds e k v e' : e <> [] -> env_set e k v = inl e' -> env_get e' k = Some v.
 Proof. exact (env_set_get_same e k v e'). Qed.
 Print Assumptions C04_assignment_binds.
+
+(* ---- with the refinement theorem the scope chain of the model after any statement IS the scope
+   chain of the specification (assignment binds in the innermost block, one child scope per @if /
+   loop, discarded at @end; a visible name keeps its type; 'loop' is reserved): part of Rs. *)
+From TW Require Import Expr Template ExprSem CleanValues TemplateRefine.
+
+Theorem C04_scopes_of_model_and_specification_agree fs sc n out sig sc' :
+  env_clean sc = true -> node_ok n ->
+  run_node model_call_spec fs sc n = TOk out sig sc' ->
+  exists K, forall fm, (K <= fm)%nat -> exists v, eval_stmt cx0 fm sc (cnode n) = Ok (v, sc').
+Proof.
+  intros Hc Hok Hr. destruct (statement_refines_specification fs sc n Hc Hok) as [K H].
+  exists K. intros fm Hfm. specialize (H fm Hfm). rewrite Hr in H.
+  destruct H as (v & He & _). exists v. exact He.
+Qed.
+Print Assumptions C04_scopes_of_model_and_specification_agree.
+
+Theorem C04_assignment_is_the_specifications sc x v :
+  match assign sc x v with
+  | Some sc' => env_set sc x v = inl sc'
+  | None => exists msg, env_set sc x v = inr msg
+  end.
+Proof. exact (assign_is_env_set sc x v). Qed.
+Print Assumptions C04_assignment_is_the_specifications.
